@@ -217,7 +217,7 @@ def step_rules(rep, prog, marker, com, rev):
                   "the pass is not ended after `compel all edges into y` (break / flag / guard of the last step changed)")
     # --- the last step
     if len(fin_stores) != 1:
-        rep.bad("STEP.last", fwhere(f), "expected one store for the remaining unknown edges into y, found %d" % len(fin_stores))
+        rep.bad_form("STEP.last", fwhere(f), "expected one store for the remaining unknown edges into y, found %d" % len(fin_stores))
         return
     st = fin_stores[0]
     rep.check("STEP.unknown-into-y", ab(st.idx) == ("tuple", (col_where(ay, marker), ay)), fwhere(f, st.node), "the last step relabels exactly the still unknown edges into y (column y)",
@@ -414,7 +414,7 @@ def order_rules(rep, prog):
     FULL = ("slice", ("const", None), ("const", None), ("const", None))
     idx = ab(st[0].idx)
     if not (idx[0] == "tuple" and len(idx[1]) == 2):
-        rep.bad("STEP.order-store", fwhere(f, st[0].node), "the label is not stored at a single [x, y] position")
+        rep.bad_form("STEP.order-store", fwhere(f, st[0].node), "the label is not stored at a single [x, y] position")
         return
     x, y = idx[1]
 
